@@ -309,7 +309,7 @@ def pure_calls():
         P = vec(m, (4, 3), 'p', 5)
         Q = vec(m, (4, 3), 'q', 6)
         K = torch.tensor([[300.0, 0, 160], [0, 300.0, 120], [0, 0, 1]], dtype=DT)
-        thunks = [('knn', lambda: pp.knn(P, Q, k=2)), ('nbr_filter', lambda: pp.nbr_filter(P, 1, 1.0)), ('voxel_filter', lambda: pp.voxel_filter(P, [0.5, 0.5, 0.5])),
+        thunks = [('knn', lambda: pp.knn(P[:2], Q[:2], k=2)), ('nbr_filter', lambda: pp.nbr_filter(P[:2], 1, 1.0)), ('voxel_filter', lambda: pp.voxel_filter(P, [0.5, 0.5, 0.5])),
                   ('knn_filter', lambda: pp.knn_filter(P, 1)), ('random_filter', lambda: pp.random_filter(P, 2)), ('svdtf', lambda: pp.svdtf(P, Q)),
                   ('cart2homo', lambda: pp.cart2homo(P)), ('homo2cart', lambda: pp.homo2cart(P)), ('point2pixel', lambda: pp.point2pixel(P + torch.tensor([0, 0, 5.0], dtype=DT), K)),
                   ('chspline', lambda: pp.chspline(P, 0.5)), ('bmv', lambda: pp.bmv(P[:3].clone().T.contiguous(), Q[0]))]
